@@ -1649,11 +1649,10 @@ package engine
 //@   loop 2 invariant true
 //@   loop 3 invariant true
 //@   loop 4 invariant true
-//@   at-call (*Env).Unify#1 requires[a-constant-in-the-head-is-unified-with-the-argument] a2 == local(op, instruction).operand
-//@   at-call (*Env).Unify#2 requires[a-variable-in-the-head-is-unified-with-the-argument] a2 == local(v, Variable)
-//@   at-call (*Env).Unify#3 requires[a-compound-in-the-head-is-unified-with-the-argument] true
-//@   at-call (*Env).Unify#4 requires[a-list-in-the-head-is-unified-with-the-argument] true
-//@   at-call (*Env).Unify#5 requires[a-partial-list-in-the-head-is-unified-with-the-argument] true
+//@   at-call (*Env).Unify requires[head-arguments-are-decided-by-unification] true
+//@   never-calls (*Env).bind
+//@   never-calls (*Env).lookup
+//@   never-calls (*Env).insert
 
 //@ spec fun keyOf(v int) int = wrap64(ite(tdiv(v, 2) != 0, 0 - v, v))
 //@ func newEnvKey
